@@ -288,3 +288,70 @@ func k01dec2GenRegion(p *packages.Package, e entry) (string, error) {
 	text = strings.Replace(text, "\ndef "+e.lean+" ", "\ndef "+e.lean+" "+k01decHeader+" ", 1)
 	return text, nil
 }
+
+// k01dec2Type: `func(int, int) bool` (DataMask.isMasked) is an ABSTRACT predicate of the kernel: `(Int → Int → Bool)`
+func k01dec2Type(t types.Type) (string, bool) {
+	if !k01dec2On() || t == nil {
+		return "", false
+	}
+	sig, ok := t.Underlying().(*types.Signature)
+	if !ok || sig.Recv() != nil || sig.Variadic() || sig.Results().Len() != 1 || sig.Params().Len() == 0 {
+		return "", false
+	}
+	parts := []string{}
+	for i := 0; i < sig.Params().Len(); i++ {
+		lt, err := leanType(sig.Params().At(i).Type())
+		if err != nil || lt != "Int" {
+			return "", false
+		}
+		parts = append(parts, "Int")
+	}
+	rt, err := leanType(sig.Results().At(0).Type())
+	if err != nil || (rt != "Bool" && rt != "Int") {
+		return "", false
+	}
+	return "(" + strings.Join(append(parts, rt), " → ") + ")", true
+}
+
+// k01dec2Mexpr: `x.f(args)` with x a struct parameter and f a function-valued field: the application of the parameter `x_f`
+func (fc *fnCtx) k01dec2Mexpr(ex ast.Expr) (string, bool, error) {
+	if !k01dec2On() || fc.m == nil {
+		return "", false, nil
+	}
+	call, ok := ex.(*ast.CallExpr)
+	if !ok {
+		return "", false, nil
+	}
+	sel, ok := call.Fun.(*ast.SelectorExpr)
+	if !ok {
+		return "", false, nil
+	}
+	key, lt, ok := fc.fieldKey(sel)
+	if !ok || !strings.Contains(lt, "→") {
+		return "", false, nil
+	}
+	f, err := fc.expr(sel)
+	if err != nil {
+		return "", true, err
+	}
+	_ = key
+	as, err := fc.k01decArgs(call.Args)
+	if err != nil {
+		return "", true, err
+	}
+	return "(" + strings.Join(append([]string{f}, as...), " ") + ")", true, nil
+}
+
+// k01dec2MatrixOuts: a parameter of the abstract matrix type that a mutating method rebinds is part of the result
+func (fc *fnCtx) k01dec2MatrixOuts(assigned map[string]bool, outTypes []string) []string {
+	if !k01dec2On() || fc.m == nil {
+		return outTypes
+	}
+	for _, n := range fc.paramNames {
+		if assigned[n] && fc.m.ltype[n] == "M" && !fc.isOutVar(n) {
+			fc.m.outVars = append(fc.m.outVars, n)
+			outTypes = append(outTypes, "M")
+		}
+	}
+	return outTypes
+}
